@@ -16,6 +16,8 @@ pub struct Expect {
     pub notes: Vec<(String, String)>,
     /// Lane lifecycle handlers with a non-empty body that ran (nested cascades).
     pub nested_bodies: u64,
+    /// Removals of an absent key that a handler performed (no state change, nothing triggered).
+    pub noop_removes: u64,
     /// Lane contents at the end of the expected execution.
     pub final_state: (i32, i32, BTreeMap<i32, i32>),
 }
@@ -28,6 +30,7 @@ struct Ref<'a> {
     out: Vec<String>,
     pending: Vec<(i32, H, i32)>,
     nested_bodies: u64,
+    noop_removes: u64,
 }
 
 struct Failed;
@@ -123,6 +126,8 @@ impl<'a> Ref<'a> {
                 if let Some(prev) = self.m.remove(k) {
                     self.out.push(format!("m.on_remove(k={},prev={},map={:?})", k, prev, mapv(&self.m)));
                     self.body(M_REM)?;
+                } else {
+                    self.noop_removes += 1;
                 }
             }
             H::Clr => {
@@ -165,10 +170,11 @@ impl<'a> Ref<'a> {
 /// The expected trace. Where the documentation leaves the order open (when a suspended cascade
 /// runs relative to later commands) the observed trace, if given, chooses among the legal orders.
 pub fn expected(p: &Program, roots: &[RootEv], observed: Option<(&[String], bool)>) -> Expect {
-    let mut r = Ref { p, v: 0, w: 0, m: BTreeMap::new(), out: vec![], pending: vec![], nested_bodies: 0 };
+    let mut r = Ref { p, v: 0, w: 0, m: BTreeMap::new(), out: vec![], pending: vec![], nested_bodies: 0, noop_removes: 0 };
     let mut notes = vec![];
     let fin = |r: Ref, failed_in: Option<&'static str>, notes: Vec<(String, String)>| Expect {
         final_state: (r.v, r.w, r.m.clone()),
+        noop_removes: r.noop_removes,
         trace: r.out,
         failed_in,
         notes,
@@ -360,7 +366,8 @@ pub fn checker(obs: &Observation) -> Vec<(String, String)> {
                     }
                 }
                 if bad.is_some() || rep != exp.final_state.2 {
-                    out.push(("law=final_state lane=m seen_by=remote".to_string(), describe(&format!("folding the events a linked remote received on lane m gives {:?} (undecodable: {:?}), the lane's final content is {:?}", rep, bad, exp.final_state.2))));
+                    let sig = if exp.noop_removes > 0 { "law=final_state lane=m seen_by=remote after=handler_removed_absent_key" } else { "law=final_state lane=m seen_by=remote" };
+                    out.push((sig.to_string(), describe(&format!("folding the events a linked remote received on lane m gives {:?} (undecodable: {:?}), the lane's final content is {:?}", rep, bad, exp.final_state.2))));
                 }
             }
         }
